@@ -15,6 +15,7 @@ import AmrK.PathsDefaults
 import AmrK.ChunksCover
 import AmrK.CellHCodec
 import AmrK.HypsModel
+import AmrK.HeaderRender
 /-! `amrk-driver`: one JSON object per line in, one JSON object per line out.
     Executable definitions of the model only (no Mathlib behind any import). -/
 open Lean
@@ -185,6 +186,38 @@ def opRenderCellH (j : Json) : Except String Json := do
     return ({ lo, hi, file := Py.ofString file, offset := off } : Taste.BoxRow)
   return Json.mkObj [("text", toJson (str (Taste.renderCellH nf rows)))]
 
+/-! ### global header renderer (with the executable hypothesis of `Header.parse_render`) -/
+def strList (j : Json) : Except String (List Bytes) := do
+  (← j.getArr?).toList.mapM fun x => do return Py.ofString (← x.getStr?)
+def intListJ (j : Json) : Except String (List Int) := do
+  (← j.getArr?).toList.mapM (·.getInt?)
+open Header in
+def opRenderHeader (j : Json) : Except String Json := do
+  let s (k : String) : Except String Bytes := do return Py.ofString (← (← j.getObjVal? k).getStr?)
+  let lvs ← (← j.getObjVal? "levels").getArr?
+  let levels ← lvs.toList.mapM fun l => do
+    let bs ← (← l.getObjVal? "boxes").getArr?
+    let boxes ← bs.toList.mapM fun b => do
+      (← b.getArr?).toList.mapM fun p => do
+        let q ← strList p
+        return (q.getD 0 [], q.getD 1 [])
+    return ({ boxes, timeTok := Py.ofString (← (← l.getObjVal? "time").getStr?),
+              stepLine := Py.ofString (← (← l.getObjVal? "step").getStr?),
+              dir := Py.ofString (← (← l.getObjVal? "dir").getStr?),
+              tail := Py.ofString (← (← l.getObjVal? "tail").getStr?) } : LevelData)
+  let H : HData := {
+    version := ← s "version", names := ← strList (← j.getObjVal? "names"), ndims := ← (← j.getObjVal? "ndims").getNat?,
+    time := ← s "time", geoLo := ← strList (← j.getObjVal? "geo_lo"), geoHi := ← strList (← j.getObjVal? "geo_hi"),
+    factors := ← intListJ (← j.getObjVal? "factors"),
+    gridHi := ← (← (← j.getObjVal? "grid_hi").getArr?).toList.mapM intListJ,
+    steps := ← intListJ (← j.getObjVal? "steps"),
+    dx := ← (← (← j.getObjVal? "dx").getArr?).toList.mapM strList,
+    coordLine := ← s "coord", levels, trails := ← strList (← j.getObjVal? "trails"),
+    dxTrails := ← strList (← j.getObjVal? "dx_trails") }
+  let text := render H
+  let back := match parse text none with | .ok _ => "ok" | .refused w => "refused:" ++ w
+  return Json.mkObj [("hex", toJson (hex text)), ("good", toJson H.goodB), ("parse", toJson back)]
+
 /-! ### mandoline column -/
 open Column in
 def cfgOfJson (j : Json) : Except String Cfg := do
@@ -331,6 +364,7 @@ partial def loop (h : IO.FS.Stream) (out : IO.FS.Stream) (files : Std.HashMap St
         | "menu_table" => opMenuTable j
         | "paths" => opPaths j
         | "render_cellh" => opRenderCellH j
+        | "render_header" => opRenderHeader j
         | "chunks" => opChunks j
         | "taste_plt" => opTastePlt files j
         | "column" => opColumn j
